@@ -36,6 +36,7 @@ import (
 	"time"
 
 	"github.com/jech/storrent/alloc"
+	"github.com/jech/storrent/config"
 	"github.com/jech/storrent/hash"
 	"github.com/jech/storrent/known"
 	"github.com/jech/storrent/peer"
@@ -99,6 +100,7 @@ func bstr(s string) string { return fmt.Sprintf("%d:%s", len(s), s) }
 
 // piece length of the torrents being generated (geometry): 16 KiB is the smallest legal one
 var curPlen = 32768
+var curNPieces = 4
 
 func geomPlen(g string) int {
 	switch g {
@@ -106,13 +108,15 @@ func geomPlen(g string) int {
 		return 16384
 	case "p256k":
 		return 262144
+	case "p16k-many":
+		return 16384
 	}
 	return 32768
 }
 
 func metainfo(n int) []byte {
 	plen := curPlen
-	const npieces = 4
+	npieces := curNPieces
 	var pieces bytes.Buffer
 	for i := 0; i < npieces; i++ {
 		h := sha1.Sum([]byte(fmt.Sprintf("piece %d of %d", i, n)))
@@ -464,7 +468,10 @@ func runCase(c *vhlib.Ctx, cs caseSpec) {
 		return
 	}
 	curPlen = geomPlen(cs.geom)
-	defer func() { curPlen = 32768 }()
+	if cs.geom == "p16k-many" {
+		curNPieces = 1200 // more pieces than a peer's overflow list is ever allowed to hold
+	}
+	defer func() { curPlen = 32768; curNPieces = 4 }()
 	e, serr := setup(cs.pv, cs.readers)
 	if serr != "" {
 		line := "call " + cs.String() + " got=setup-failed"
@@ -546,6 +553,48 @@ func runCase(c *vhlib.Ctx, cs caseSpec) {
 		call()
 		if cs.op == "ReaderRead" {
 			// nothing will ever deliver the piece: the reader's own context ends the wait
+			time.Sleep(30 * time.Millisecond)
+			readerCancel()
+		}
+		got = wait()
+	case "never-ran-refused":
+		// the object under test is a second *Torrent for the same hash, which AddTorrent
+		// refuses (ErrExist): its event loop never runs
+		dup, derr := tor.ReadTorrent("", bytes.NewReader(metainfo(e.serial)))
+		if derr != nil || !bytes.Equal(dup.Hash, t.Hash) {
+			got = "bad-stop"
+			break
+		}
+		dup.Log.SetOutput(io.Discard)
+		if _, aerr := tor.AddTorrent(context.Background(), dup); !errors.Is(aerr, os.ErrExist) {
+			c.Violate("duplicate-accepted", fmt.Sprintf("AddTorrent of a running hash returned %v", aerr), c.Case())
+		}
+		e.t = dup
+		call()
+		got = wait()
+		e.t = t
+	case "expire-parked":
+		// tor.Expire queries the torrent (GetAvailable) while its loop is parked for longer
+		// than any caller-side patience, then the loop is released: it must answer whoever
+		// is (still) waiting and go on serving
+		if !block() {
+			got = "hang"
+			break
+		}
+		savedMark := config.MemoryMark
+		config.MemoryMark = 1
+		expired := make(chan struct{})
+		go func() { tor.Expire(); close(expired) }()
+		time.Sleep(1300 * time.Millisecond)
+		release()
+		select {
+		case <-expired:
+		case <-time.After(watchdog):
+			c.Violate("hang:Expire:expire-parked", "tor.Expire did not return after the loop was released", c.Case())
+		}
+		config.MemoryMark = savedMark
+		call()
+		if cs.op == "ReaderRead" {
 			time.Sleep(30 * time.Millisecond)
 			readerCancel()
 		}
@@ -691,7 +740,7 @@ func runCase(c *vhlib.Ctx, cs caseSpec) {
 	case strings.HasPrefix(got, "panic"):
 		c.Violate("panic:"+cs.op+":"+cs.stop, line, c.Case())
 	case got == "ok" || got == "ret" || got == "dead":
-		if got == "dead" && (cs.stop == "live" || cs.stop == "answering" || cs.stop == "full-complete") && cs.op != "Kill" {
+		if got == "dead" && (cs.stop == "live" || cs.stop == "answering" || cs.stop == "full-complete" || cs.stop == "expire-parked") && cs.op != "Kill" {
 			c.Violate("dead-while-alive:"+cs.op+":"+cs.stop, "torrent-is-dead from a running torrent: "+line, c.Case())
 		}
 	case got == "ctx" && (cs.op == "KillCtx" || cs.op == "ReaderRead"):
@@ -827,13 +876,18 @@ func runCase(c *vhlib.Ctx, cs caseSpec) {
 // Have for every piece; returns once each peer has processed them.
 func (e *env) peersEmit() {
 	var msg []byte
-	for i := 0; i < 4; i++ {
-		msg = append(msg, 0, 0, 0, 5, 4, 0, 0, 0, byte(i))
+	n := curNPieces
+	if n > 1100 {
+		n = 1100
 	}
+	for i := 0; i < n; i++ {
+		msg = append(msg, 0, 0, 0, 5, 4, 0, 0, byte(i>>8), byte(i))
+	}
+	last := uint32(n - 1)
 	live := 0
 	for _, r := range e.remotes {
 		if !r.eof.Load() {
-			r.remote.SetWriteDeadline(time.Now().Add(time.Second))
+			r.remote.SetWriteDeadline(time.Now().Add(2 * time.Second))
 			r.remote.Write(msg)
 			live++
 		}
@@ -845,7 +899,7 @@ func (e *env) peersEmit() {
 	go func() {
 		defer close(done)
 		for _, p := range e.peerList {
-			pollUntil(time.Second, func() bool { return p.GetHave(3) })
+			pollUntil(time.Second, func() bool { return p.GetHave(last) })
 		}
 	}()
 	select {
@@ -1330,6 +1384,22 @@ func main() {
 				runCase(c, caseSpec{op: op, stop: stop, pv: pv, readers: i, backlog: 0, geom: geom})
 			}
 		}
+	}
+	// torrents whose loop never ran: every operation on a refused duplicate
+	for _, op := range allOps() {
+		if op == "Announce" || isPeerOp(op) {
+			continue // Announce goes by hash and reaches the running torrent
+		}
+		runCase(c, caseSpec{op: op, stop: "never-ran-refused", pv: "", readers: 0})
+	}
+	// package-level callers into a torrent whose loop is parked (tor.Expire)
+	for _, op := range []string{"GetAvailable", "Have", "Kill"} {
+		runCase(c, caseSpec{op: op, stop: "expire-parked", pv: "1", readers: 0})
+	}
+	// a peer fed more event-producing messages than any bound on its overflow list, the
+	// torrent's queue full and not drained, then the torrent is deleted
+	for _, op := range []string{"GetStats", "Have"} {
+		runCase(c, caseSpec{op: op, stop: "full-goaway", pv: "1", readers: 0, geom: "p16k-many"})
 	}
 	// every lookup path, every name the torrent has had, before and after the deletion
 	for _, kind := range []string{"plain", "plain-utf8", "magnet-same", "magnet-rename", "magnet-rename-utf8"} {
